@@ -139,7 +139,12 @@ def handle (j : Json) : Except String Json := do
     let mols := ms.map (·.mol)
     let sched ← (← (← j.getObjVal? "sched").getArr?).toList.mapM (·.getBool?)
     let tr := traceOf cfg mols sched (init mols)
+    -- the calls of `_handle_random_walk` (give-up branch spelled out) over the consumed part of the schedule
+    let bm := (← optNat j "bs_maxiter").getD WalkTables.bsMaxiter
+    let g := runG cfg bm mols (sched.take (tr.length - 1)) (initG mols)
     pure (okJson [("nrewind", toJson cfg.nrewind), ("maxiter", toJson cfg.maxiter),
+                  ("bs_maxiter", toJson bm), ("step_count", toJson g.stepCount),
+                  ("returns", Json.arr (g.returns.map fun (i, ok) => Json.arr #[toJson i, toJson ok]).toArray),
                   ("work", toJson (work mols)), ("firsts", toJson (mols.map (·.first))),
                   ("wf", toJson (mols.map (·.wfCheck))),
                   ("paths", Json.arr (mols.map fun m => Json.arr (m.path.map fun e => Json.arr #[toJson e.1, toJson e.2]).toArray).toArray),
